@@ -129,7 +129,10 @@ def step (countTokens skipServed : Bool) (s : State) : Act → State
   | .processH => { s with host := process countTokens s.host }
   | .publishC i v => { s with clients := onClient i (cPublish v) s.clients }
   | .reactC i =>
-    { s with clients := onClient i cReact s.clients }
+    { s with clients := onClient i cReact s.clients,
+             sent := s.sent + (match findClient i s.clients with
+                               | some c => if (react c.p).2 then 1 else 0
+                               | none => 0) }
   | .pollC i =>
     { s with clients := onClient i (cPoll skipServed) s.clients }
   | .fetchC i => { s with clients := onClient i (cFetch s) s.clients }
